@@ -413,9 +413,9 @@ func runSeq(c *harness.C, mode string, seq []string) {
 
 func gen(c *harness.C) []harness.Case {
 	c.Note("rule", "all operation sequences up to the depth bound over the alphabet "+strings.Join(ops, " | ")+", executed on one persistent world of real Schemes (backend S, n=3, signers {1,2}) with the default schedule inside each operation; after every operation the handler tables (reflection) must be empty, every cooperative operation must succeed whatever preceded it; distinct_nontrivial = distinct (mode, history)")
-	depth := 3
+	depth := 4
 	if c.Thorough() {
-		depth = 4
+		depth = 5
 	}
 	if r := c.Replay; r != nil {
 		var rp replay
